@@ -17,35 +17,37 @@ Definition model_lit_into_ty_arms : list arm :=
     ([(LPInt, CPI64)], FTrue);            (*  7 *)
     ([(LPInt, CPF32)], FTrue);            (*  8 *)
     ([(LPInt, CPF64)], FTrue);            (*  9 *)
-    ([(LPInt, CPAdtEnum)], FTrue);        (* 10 *)
-    ([(LPFloat, CPF64)], FTrue);          (* 11 *)
-    ([(LPFloat, CPOrderedF64)], FTrue);   (* 12 *)
-    ([(LPAny, CPAdtNewType)], FDyn);      (* 13 *)
-    ([(LPMap, CPStaticRef)], FFalse);     (* 14 *)
-    ([(LPList, CPArray)], FDyn);          (* 15 *)
-    ([(LPList, CPVec)], FFalse);          (* 16 *)
-    ([(LPList, CPSet)], FFalse);          (* 17 *)
-    ([(LPList, CPBTreeSet)], FFalse);     (* 18 *)
-    ([(LPBool, CPBool)], FTrue);          (* 19 *)
-    ([(LPInt, CPBool)], FTrue);           (* 20 *)
-    ([(LPString, CPBytes)], FTrue);       (* 21 *)
-    ([(LPMap, CPAdtStruct)], FDyn) ].     (* 22 *)
+    ([(LPInt, CPOrderedF64)], FTrue);     (* 10 *)
+    ([(LPInt, CPAdtEnum)], FTrue);        (* 11 *)
+    ([(LPFloat, CPF64)], FTrue);          (* 12 *)
+    ([(LPFloat, CPOrderedF64)], FTrue);   (* 13 *)
+    ([(LPAny, CPAdtNewType)], FDyn);      (* 14 *)
+    ([(LPMap, CPStaticRef)], FFalse);     (* 15 *)
+    ([(LPList, CPArray)], FDyn);          (* 16 *)
+    ([(LPList, CPVec)], FFalse);          (* 17 *)
+    ([(LPList, CPSet)], FFalse);          (* 18 *)
+    ([(LPList, CPBTreeSet)], FFalse);     (* 19 *)
+    ([(LPBool, CPBool)], FTrue);          (* 20 *)
+    ([(LPInt, CPBool)], FTrue);           (* 21 *)
+    ([(LPString, CPBytes)], FTrue);       (* 22 *)
+    ([(LPMap, CPAdtStruct)], FDyn) ].     (* 23 *)
 
 Lemma lit_into_ty_arms_pinned : lit_into_ty_arms = model_lit_into_ty_arms.
 Proof. reflexivity. Qed.
 
 Lemma lit_as_rvalue_arms_pinned :
   lit_as_rvalue_arms = [ ([(LPMap, CPLazyStaticRef)], FFalse); ([(LPMap, CPMap)], FFalse); ([(LPMap, CPBTreeMap)], FFalse);
-                         ([(LPList, CPLazyStaticRef)], FFalse); ([(LPList, CPMap)], FFalse); ([(LPList, CPBTreeMap)], FFalse) ].
+                         ([(LPList, CPLazyMap)], FFalse); ([(LPList, CPLazyStaticRef)], FFalse);
+                         ([(LPList, CPMap)], FFalse); ([(LPList, CPBTreeMap)], FFalse) ].
 Proof. reflexivity. Qed.
 
 Lemma ident_into_ty_arms_pinned :
-  ident_into_ty_arms = [ ([(CPStr, CPFastStr)], FTrue);
+  ident_into_ty_arms = [ ([(CPAny, CPAdtNewType)], FDyn); ([(CPStr, CPFastStr)], FTrue); ([(CPStr, CPString)], FFalse);
                          ([(CPAdtEnum, CPI64); (CPAdtEnum, CPI32); (CPAdtEnum, CPI16); (CPAdtEnum, CPI8)], FTrue) ].
 Proof. reflexivity. Qed.
 
 Lemma lit_scalars_pinned :
-  int_float_casts = [(CPF32, CPF32); (CPF64, CPF64)] /\ int_bool_test = (true, 0) /\
+  int_float_casts = [(CPF32, CPF32); (CPF64, CPF64); (CPOrderedF64, CPF64)] /\ int_bool_test = (true, 0) /\
   lazy_static_kinds = [CPString; CPLazyStaticRef; CPStaticRef; CPVec; CPMap; CPBTreeMap] /\
   const_ty_overrides = [(CPString, [CPStr]); (CPFastStr, [CPStr]); (CPVec, [CPArray]); (CPSet, [CPStaticRef; CPSet]);
                         (CPBTreeSet, [CPStaticRef; CPBTreeSet]); (CPMap, [CPStaticRef; CPMap]); (CPBTreeMap, [CPStaticRef; CPBTreeMap])].
@@ -259,7 +261,7 @@ Definition class_over (S : lschema) (v : lit) (s : list byte) : list lfield -> o
     match fs with
     | [] => None
     | f :: fr =>
-        match (if bytes_eqb s (lf_name f) then pclass_into S v (item_cty (lf_ty f)) else None) with
+        match (if bytes_eqb s (lf_name f) then pclass_into S true v (item_cty (lf_ty f)) else None) with
         | Some c => Some c
         | None => over fr
         end
@@ -276,19 +278,46 @@ Definition class_pairs (S : lschema) (fs : list lfield) : list (lit * lit) -> op
     end.
 
 Lemma class_over_in S v s fs f : class_over S v s fs = None -> In f fs -> bytes_eqb s (lf_name f) = true ->
-  pclass_into S v (item_cty (lf_ty f)) = None.
+  pclass_into S true v (item_cty (lf_ty f)) = None.
 Proof.
   induction fs as [|g fr IH]; intros H Hin Hb; [destruct Hin|].
   cbn [class_over] in H. destruct Hin as [->|Hin].
-  - rewrite Hb in H. destruct (pclass_into S v (item_cty (lf_ty f))); [discriminate|reflexivity].
+  - rewrite Hb in H. destruct (pclass_into S true v (item_cty (lf_ty f))); [discriminate|reflexivity].
   - destruct (if bytes_eqb s (lf_name g) then _ else _); [discriminate|]. apply IH; assumption.
 Qed.
-Lemma snorm_n_ref_stop S f n : (forall a, sitem S n <> Some (INewType a)) -> snorm_n S (Datatypes.S f) (TyRef n) = TyRef n.
+(* ---------- typedef chains of a target (ident_into_ty) ---------- *)
+Lemma in_chain_refl S f ty : in_chain S f ty ty = true.
+Proof. destruct f; cbn [in_chain]; rewrite cty_eqb_refl; reflexivity. Qed.
+
+Lemma in_chain_peel S f : forall ty, in_chain S f (peel S f ty) ty = true.
 Proof.
-  intros H. cbn [snorm_n]. destruct (sitem S n) as [[]|] eqn:E; try reflexivity. exfalso. exact (H _ eq_refl).
+  induction f as [|f IH]; intros ty; [cbn; rewrite cty_eqb_refl; reflexivity|].
+  destruct ty; try (cbn [peel]; apply in_chain_refl).
+  cbn [peel in_chain]. destruct (item S n) as [[]|] eqn:E; try (rewrite cty_eqb_refl; reflexivity).
+  rewrite IH. apply Bool.orb_true_r.
 Qed.
-Lemma snorm_ref_stop S n : (forall a, sitem S n <> Some (INewType a)) -> snorm S (TyRef n) = TyRef n.
-Proof. intros H. exact (snorm_n_ref_stop S (31 + length (ls_items S)) n H). Qed.
+
+(* a type that is no typedef occurs in a chain only at its end *)
+Definition not_nt (S : lschema) (it : cty) : Prop := forall n a, it = CAdt n -> item S n <> Some (INewType a).
+
+Lemma in_chain_end S it f : not_nt S it -> forall ty, cty_eqb it (peel S f ty) = false -> in_chain S f it ty = false.
+Proof.
+  intros Hn. induction f as [|f IH]; intros ty H; [cbn in *; rewrite H; reflexivity|].
+  destruct ty; try (cbn [peel in_chain] in *; rewrite H; reflexivity).
+  cbn [peel in_chain] in *. destruct (item S n) as [[]|] eqn:E; try (rewrite H; reflexivity).
+  rewrite (IH _ H), Bool.orb_false_r. destruct (cty_eqb it (CAdt n)) eqn:Eq; [|reflexivity].
+  apply cty_eqb_eq in Eq. exfalso. exact (Hn _ _ Eq E).
+Qed.
+
+Lemma sres_term S f x : unresolved S x = false -> sresolve_n S f x = x.
+Proof.
+  destruct f; [reflexivity|]. destruct x; try reflexivity. cbn [unresolved sresolve_n].
+  destruct (sitem S n) as [[]|]; try discriminate; reflexivity.
+Qed.
+
+(* a literal that is neither a list nor a map literal is not looked at by any arm of lit_as_rvalue *)
+Lemma rv_index_scalar en lk ck : lk <> LPList -> lk <> LPMap -> rv_index en lk ck = 7%nat.
+Proof. intros H1 H2. destruct en; [|reflexivity]. destruct lk; try congruence; destruct ck; reflexivity. Qed.
 
 Section Main.
   Variable parse_f64 : list byte -> option Z.
@@ -300,23 +329,24 @@ Section Main.
   Hypothesis HC : forall c v, const_simple S c = true -> cv c = Some v -> cval c = LOk v.
   Hypothesis HD : forall t d, empty (erase t) = Some d -> dflt t = LOk d.
 
-  Notation into := (lit_into_ty parse_f64 S cval dflt).
+  Notation low := (lower parse_f64 S cval dflt).
   Notation val := (lit_value parse_f64 S cv empty).
 
   Definition crel (t : rty) (ty : cty) : Prop := ty = item_cty t \/ (ty = CStr /\ is_string_rty t = true).
 
+  (* [en]: true = entered through lit_as_rvalue, false = through lit_into_ty *)
   Definition good (l : lit) : Prop :=
-    forall t ty v, crel t ty -> val l (erase t) = Some v -> pclass_into S l ty = None -> exists c, into l ty = LOk (v, c).
+    forall en t ty v, crel t ty -> val l (erase t) = Some v -> pclass_into S en l ty = None -> exists c, low en l ty = LOk (v, c).
 
   Definition nonpath (l : lit) : bool := match l with LMember _ _ | LConst _ => false | _ => true end.
 
-  Lemma pre l t : nonpath l = true -> pclass_into S l (item_cty t) = None ->
+  Lemma pre en l t : nonpath l = true -> pclass_into S en l (item_cty t) = None ->
     peel S (pfuel S) (item_cty t) = item_cty (rres S t) /\ sresolve S (erase t) = erase (rres S t).
   Proof.
     intros Hn Hp. split; [apply peel_item|]. apply sres_erase. intros Hk.
     destruct l; try discriminate; cbn [pclass_into] in Hp; unfold pfuel in *;
       set (p := peel S _ (item_cty t)) in *; clearbody p;
-      destruct p; cbn [ckind] in Hk; try discriminate;
+      destruct p; try discriminate; cbn [ckind] in Hk; try discriminate;
       match type of Hk with context [item S ?n] => destruct (item S n) as [[]|]; discriminate end.
   Qed.
 
@@ -327,168 +357,251 @@ Section Main.
   Ltac simp_item Hv Hp :=
     cbn in Hv, Hp |- *; unfold sitem, item in *;
     try match goal with E : nth_error (ls_items S) _ = _ |- _ => rewrite E in * end; cbn in Hv, Hp |- *.
+  (* the flag "is lit_as_rvalue asked" as an opaque boolean, both values *)
+  Ltac split_en en ty := let b := fresh "b" in set (b := en || is_nt S ty) in *; clearbody b; destruct b.
 
   Lemma good_int z : good (LInt z).
   Proof.
-    intros t ty v [->|[-> Hs]] Hv Hp.
-    - destruct (pre (LInt z) t eq_refl Hp) as (Ep & Es).
-      cbn [lit_into_ty lit_value pclass_into] in *. rewrite Ep in *. rewrite Es in Hv. clear Ep Es.
-      destruct (rres S t); split_item; simp_item Hv Hp; try discriminate;
+    intros en t ty v [->|[-> Hs]] Hv Hp.
+    - destruct (pre en (LInt z) t eq_refl Hp) as (Ep & Es).
+      cbn [lower lit_value pclass_into] in *. rewrite Ep in *. rewrite Es in Hv. clear Ep Es.
+      split_en en (item_cty t);
+      (destruct (rres S t); split_item; simp_item Hv Hp; try discriminate;
         repeat match type of Hv with (if ?b then _ else _) = _ => destruct b eqn:?; try discriminate end;
-        try (injection Hv as <-; try (eexists; reflexivity)).
-      rewrite int_to_double_model. eexists; reflexivity.
+        try (injection Hv as <-; try (eexists; reflexivity));
+        try (rewrite int_to_double_model; eexists; reflexivity)).
     - destruct t; try discriminate; cbn in Hv; discriminate.
   Qed.
 
   Lemma good_bool b : good (LBool b).
   Proof.
-    intros t ty v [->|[-> Hs]] Hv Hp.
-    - destruct (pre (LBool b) t eq_refl Hp) as (Ep & Es).
-      cbn [lit_into_ty lit_value pclass_into] in *. rewrite Ep in *. rewrite Es in Hv. clear Ep Es.
-      destruct (rres S t); split_item; simp_item Hv Hp; try discriminate.
-      injection Hv as <-. eexists; reflexivity.
+    intros en t ty v [->|[-> Hs]] Hv Hp.
+    - destruct (pre en (LBool b) t eq_refl Hp) as (Ep & Es).
+      cbn [lower lit_value pclass_into] in *. rewrite Ep in *. rewrite Es in Hv. clear Ep Es.
+      split_en en (item_cty t);
+      (destruct (rres S t); split_item; simp_item Hv Hp; try discriminate; injection Hv as <-; eexists; reflexivity).
     - destruct t; try discriminate; cbn in Hv; discriminate.
   Qed.
 
   Lemma good_float s : good (LFloat s).
   Proof.
-    intros t ty v [->|[-> Hs]] Hv Hp.
-    - destruct (pre (LFloat s) t eq_refl Hp) as (Ep & Es).
-      cbn [lit_into_ty lit_value pclass_into] in *. rewrite Ep in *. rewrite Es in Hv. clear Ep Es.
-      destruct (rres S t); split_item; simp_item Hv Hp; try discriminate;
-        destruct (parse_f64 s); try discriminate; injection Hv as <-; eexists; reflexivity.
+    intros en t ty v [->|[-> Hs]] Hv Hp.
+    - destruct (pre en (LFloat s) t eq_refl Hp) as (Ep & Es).
+      cbn [lower lit_value pclass_into] in *. rewrite Ep in *. rewrite Es in Hv. clear Ep Es.
+      split_en en (item_cty t);
+      (destruct (rres S t); split_item; simp_item Hv Hp; try discriminate;
+        destruct (parse_f64 s); try discriminate; injection Hv as <-; eexists; reflexivity).
     - destruct t; try discriminate; cbn in Hv; discriminate.
   Qed.
 
   Lemma good_string s : good (LString s).
   Proof.
-    intros t ty v [->|[-> Hs]] Hv Hp.
-    - destruct (pre (LString s) t eq_refl Hp) as (Ep & Es).
-      cbn [lit_into_ty lit_value pclass_into] in *. rewrite Ep in *. rewrite Es in Hv. clear Ep Es.
-      destruct (rres S t); split_item; simp_item Hv Hp; try discriminate;
+    intros en t ty v [->|[-> Hs]] Hv Hp.
+    - destruct (pre en (LString s) t eq_refl Hp) as (Ep & Es).
+      cbn [lower lit_value pclass_into] in *. rewrite Ep in *. rewrite Es in Hv. clear Ep Es.
+      split_en en (item_cty t);
+      (destruct (rres S t); split_item; simp_item Hv Hp; try discriminate;
         destruct (idl_unescape s) as [b|] eqn:Eu; try discriminate; injection Hv as <-;
-        rewrite (string_value_ok _ _ Eu); eexists; reflexivity.
-    - destruct t; try discriminate; cbn in Hv |- *;
+        rewrite (string_value_ok _ _ Eu); eexists; reflexivity).
+    - cbn [lower]. split_en en CStr;
+      (destruct t; try discriminate; cbn in Hv |- *;
         (destruct (idl_unescape s) as [b|] eqn:Eu; [|discriminate]); injection Hv as <-;
-        rewrite (string_value_ok _ _ Eu); eexists; reflexivity.
+        rewrite (string_value_ok _ _ Eu); eexists; reflexivity).
   Qed.
+
+  (* ---------- paths: enum members and const references ---------- *)
+  Lemma peel_enum e ms f : item S e = Some (IEnum ms) -> peel S (Datatypes.S f) (CAdt e) = CAdt e.
+  Proof. intros H. cbn [peel]. rewrite H. reflexivity. Qed.
 
   Lemma good_member e m : good (LMember e m).
   Proof.
-    intros t ty v Hrel Hv Hp. cbn [lit_value] in Hv. unfold sitem in Hv.
+    intros en t ty v Hrel Hv Hp. cbn [lit_value] in Hv. unfold sitem in Hv.
     destruct (nth_error (ls_items S) e) as [[| ms | |]|] eqn:Ei; try discriminate.
     destruct (nth_error ms m) as [z|] eqn:Em; try discriminate.
-    cbn [pclass_into] in Hp. cbn [lit_into_ty]. unfold item. rewrite Ei, Em. unfold ident_into_ty.
-    destruct (cty_eqb (CAdt e) ty) eqn:Eeq.
-    - apply cty_eqb_eq in Eeq. subst ty. destruct Hrel as [Hrel|[Hrel _]]; [|discriminate].
-      destruct t; try discriminate. injection Hrel as <-.
-      unfold sresolve in Hv. cbn [erase sresolve_n] in Hv. unfold sitem in Hv. rewrite Ei in Hv. rewrite Nat.eqb_refl in Hv.
-      injection Hv as <-. eexists; reflexivity.
-    - cbn [orb] in Hp. destruct ty; try discriminate; (destruct Hrel as [Hrel|[Hrel _]]; [|discriminate]);
-        destruct t; try discriminate; cbn in Hv;
+    assert (Hnt : not_nt S (CAdt e)).
+    { intros n a Hn. injection Hn as <-. unfold item. rewrite Ei. discriminate. }
+    cbn [pclass_into] in Hp. cbn [lower]. unfold item. rewrite Ei, Em. unfold ident_into_ty.
+    destruct Hrel as [->|[-> _]]; [|unfold path_ok, pfuel in Hp; cbn in Hp; unfold item in Hp; rewrite Ei in Hp; cbn in Hp; discriminate].
+    pose proof (peel_item S (pfuel S) t) as Ep. fold (rres S t) in Ep.
+    destruct (path_ok S (CAdt e) (item_cty t)) eqn:Hok; [|discriminate]. unfold path_ok in Hok. rewrite Ep in Hok.
+    assert (Hfin : cty_eqb (CAdt e) (item_cty (rres S t)) = true \/
+                   (cty_eqb (CAdt e) (item_cty (rres S t)) = false /\ is_int_cty (item_cty (rres S t)) = true)).
+    { destruct (cty_eqb (CAdt e) (item_cty (rres S t))) eqn:E2; [left; reflexivity|right; split; [reflexivity|]].
+      destruct (cty_eqb (CAdt e) (item_cty t)) eqn:E1.
+      - apply cty_eqb_eq in E1. rewrite <- E1 in Ep. unfold pfuel in Ep. rewrite (peel_enum e ms _ Ei) in Ep.
+        rewrite <- Ep, cty_eqb_refl in E2. discriminate.
+      - cbn [orb is_str_cty andb] in Hok. unfold ckind, item in Hok. rewrite Ei in Hok. exact Hok. }
+    destruct Hfin as [E2|[E2 Hint]].
+    - rewrite <- Ep in E2. apply cty_eqb_eq in E2.
+      assert (Hc : in_chain S (pfuel S) (CAdt e) (item_cty t) = true) by (rewrite E2; apply in_chain_peel).
+      rewrite Hc. cbn [lbind].
+      rewrite Ep in E2.
+      assert (Hr : rres S t = RPath e) by (destruct (rres S t); try discriminate; injection E2 as ->; reflexivity).
+      assert (Hs : sresolve S (erase t) = TyRef e).
+      { unfold sresolve. fold (pfuel S). rewrite sres_erase.
+        - fold (rres S t). rewrite Hr. reflexivity.
+        - fold (rres S t) in Ep. rewrite Ep, Hr. cbn. unfold item. rewrite Ei. discriminate. }
+      rewrite Hs, Nat.eqb_refl in Hv. injection Hv as <-. eexists; reflexivity.
+    - rewrite (in_chain_end S _ _ Hnt) by (rewrite Ep; exact E2). rewrite Ep.
+      assert (Hs : sresolve S (erase t) = erase (rres S t)).
+      { unfold sresolve. fold (pfuel S). apply sres_erase. fold (rres S t) in Ep. rewrite Ep.
+        destruct (rres S t); try discriminate; cbn; discriminate. }
+      rewrite Hs in Hv.
+      destruct (rres S t); try discriminate; cbn in Hv;
         match type of Hv with (if ?b then _ else _) = _ => destruct b eqn:Eb; try discriminate end;
-        injection Hv as <-; cbn; unfold item; rewrite Ei; cbn; rewrite wrap_id by (lia || exact Eb); eexists; reflexivity.
+        injection Hv as <-; cbn; unfold item; rewrite Ei; cbn; rewrite wrap_id by (reflexivity || exact Eb); eexists; reflexivity.
   Qed.
 
   Lemma ty_eqb_refl a : ty_eqb a a = true.
   Proof. induction a; cbn; auto; try (rewrite IHa1, IHa2; reflexivity). apply Nat.eqb_refl. Qed.
+  Lemma ty_eqb_eq a : forall b, ty_eqb a b = true -> a = b.
+  Proof.
+    induction a; destruct b; cbn; try discriminate; try reflexivity; intros H;
+      try (apply Bool.andb_true_iff in H; destruct H as [H1 H2]); f_equal; auto.
+    apply Nat.eqb_eq; assumption.
+  Qed.
+
+  Lemma not_arc_kind x : is_arc_cty x = false -> ckind S x <> Some CPArc.
+  Proof.
+    destruct x; cbn; try discriminate.
+    - destruct x; discriminate.
+    - destruct (item S n) as [[]|]; discriminate.
+  Qed.
+
+  Lemma ident_item_scalar c ct lc : nth_error (ls_consts S) c = Some (ct, lc) ->
+    ident_ty_of_const S c = Some (item_cty ct) -> is_arc_cty (item_cty ct) = false -> scalar_head (erase ct) = true.
+  Proof.
+    unfold ident_ty_of_const. intros -> H Ha. injection H as H.
+    destruct ct; cbn in H, Ha |- *; try discriminate; reflexivity.
+  Qed.
 
   Lemma good_const c : good (LConst c).
   Proof.
-    intros t ty v Hrel Hv Hp. cbn [lit_value] in Hv.
-    destruct (nth_error (ls_consts S) c) as [[ct lc]|] eqn:Ec; [|discriminate].
-    cbn [pclass_into] in Hp. cbn [lit_into_ty].
+    intros en t ty v Hrel Hv Hp. cbn [lit_value] in Hv.
+    destruct (nth_error (ls_consts S) c) as [[ct lc]|] eqn:Ec; [|discriminate]. cbn zeta in Hv.
+    destruct (unresolved S (sresolve S (erase t))) eqn:Eun; [discriminate|].
+    cbn [pclass_into] in Hp. cbn [lower].
     destruct (ident_ty_of_const S c) as [it|] eqn:Eit; [|discriminate].
+    destruct (path_ok S it ty) eqn:Hok; [clear Hp|discriminate]. unfold path_ok in Hok.
     unfold ident_into_ty.
-    destruct (cty_eqb it ty) eqn:Eeq.
-    - apply cty_eqb_eq in Eeq. subst it.
+    destruct (cty_eqb it ty) eqn:E1.
+    { (* the const's type is the target *)
+      apply cty_eqb_eq in E1. subst it. rewrite in_chain_refl.
       assert (Hs : const_simple S c = true /\ erase ct = erase t).
       { unfold const_simple. rewrite Ec, Eit. destruct Hrel as [->|[-> Hs]].
         - rewrite (ident_eq_item _ _ _ _ _ Ec Eit), cty_eqb_refl. split; reflexivity.
         - pose proof (ident_str _ _ _ _ Ec Eit) as Hct. rewrite Hct. split; [apply Bool.orb_true_r|].
           destruct ct; try discriminate; destruct t; try discriminate; reflexivity. }
-      destruct Hs as [Hs He]. rewrite He, ty_eqb_refl in Hv.
-      rewrite (HC _ _ Hs Hv). eexists; reflexivity.
-    - cbn [orb] in Hp.
-      destruct (is_str_cty it && is_faststr_cty ty) eqn:Esf.
-      + destruct it; try discriminate. destruct ty; try discriminate.
-        pose proof (ident_str _ _ _ _ Ec Eit) as Hct.
-        assert (Hs : const_simple S c = true).
-        { unfold const_simple. rewrite Ec, Eit, Hct. apply Bool.orb_true_r. }
-        assert (He : erase ct = erase t).
-        { destruct Hrel as [Hrel|[Hrel _]]; [|discriminate].
-          destruct ct; try discriminate; destruct t; try discriminate; reflexivity. }
-        rewrite He, ty_eqb_refl in Hv. cbn. rewrite (HC _ _ Hs Hv). eexists; reflexivity.
-      + cbn [orb] in Hp.
-        destruct (ckind S it) as [ik|] eqn:Eik; [|discriminate]. destruct ik; try discriminate.
-        destruct (is_int_cty ty) eqn:Eint; [|discriminate].
-        (* the const's CodegenTy is an enum Adt: it is the field CodegenTy of its own type *)
-        assert (Hs : const_simple S c = true).
-        { unfold const_simple. rewrite Ec, Eit.
-          unfold ident_ty_of_const in Eit. rewrite Ec in Eit. injection Eit as Eit.
-          destruct ct; cbn in Eit; subst it; cbn in Eik; try discriminate. cbn [item_cty]. rewrite cty_eqb_refl. reflexivity. }
-        (* ct is a path to an enum / union item, t an integer type *)
-        assert (Hct : exists n, ct = RPath n /\ it = CAdt n /\ (forall a, sitem S n <> Some (INewType a))).
-        { unfold ident_ty_of_const in Eit. rewrite Ec in Eit. injection Eit as Eit.
-          destruct ct; cbn in Eit; subst it; cbn in Eik; try discriminate.
-          exists n. split; [reflexivity|]. split; [reflexivity|]. intros a Ha. unfold sitem in Ha. unfold item in Eik.
-          rewrite Ha in Eik. discriminate. }
-        destruct Hct as (n & -> & -> & Hnn).
-        destruct Hrel as [->|[-> _]]; [|discriminate].
-        assert (Ht : snorm S (erase t) = erase t /\ sresolve S (erase t) = erase t /\
-                     (erase t = TyI8 \/ erase t = TyI16 \/ erase t = TyI32 \/ erase t = TyI64)).
-        { destruct t; try discriminate; (split; [reflexivity|split; [reflexivity|]]); auto. }
-        destruct Ht as (Hn1 & Hr1 & Hty).
-        cbn [erase] in Hv. rewrite (snorm_ref_stop S n Hnn), Hn1, Hr1 in Hv.
-        assert (Hne : ty_eqb (TyRef n) (erase t) = false) by (destruct Hty as [E | [E | [E | E]]]; rewrite E; reflexivity).
-        rewrite Hne in Hv.
-        destruct (cv c) as [[]|] eqn:Ecv; try discriminate.
-        destruct (sitem S n) as [[]|]; try discriminate.
-        rewrite (HC _ _ Hs Ecv).
-        destruct t; try discriminate; cbn [erase int_at] in Hv;
-          match type of Hv with (if ?b then _ else _) = _ => destruct b eqn:Eb; try discriminate end;
-          injection Hv as <-; cbn; rewrite wrap_id by (lia || exact Eb); eexists; reflexivity.
+      destruct Hs as [Hs He]. rewrite He, ty_eqb_refl in Hv. cbn [orb] in Hv.
+      rewrite (HC _ _ Hs Hv). eexists; reflexivity. }
+    cbn [orb] in Hok.
+    (* the target is (a typedef of ..) a type the path converts to: only field types *)
+    destruct Hrel as [->|[-> _]].
+    2:{ exfalso. unfold pfuel in Hok. cbn in Hok. rewrite E1 in Hok.
+        destruct (is_str_cty it); destruct (ckind S it) as [[]|]; cbn in Hok; discriminate. }
+    pose proof (peel_item S (pfuel S) t) as Ep. fold (rres S t) in Ep. rewrite Ep in *.
+    destruct (cty_eqb it (item_cty (rres S t)) && negb (is_arc_cty (item_cty (rres S t)))) eqn:E2.
+    { (* the const's type is the type at the end of the target's typedef chain *)
+      apply Bool.andb_true_iff in E2. destruct E2 as [E2 Ea]. apply cty_eqb_eq in E2. apply Bool.negb_true_iff in Ea.
+      assert (Hc : in_chain S (pfuel S) it (item_cty t) = true) by (rewrite E2, <- Ep; apply in_chain_peel).
+      rewrite Hc. subst it.
+      pose proof (ident_eq_item _ _ _ _ _ Ec Eit) as Hct.
+      assert (Hs : const_simple S c = true).
+      { unfold const_simple. rewrite Ec, Eit, Hct, cty_eqb_refl. reflexivity. }
+      assert (Hr : sresolve S (erase t) = erase ct).
+      { unfold sresolve. fold (pfuel S). rewrite sres_erase.
+        - fold (rres S t). rewrite Hct. reflexivity.
+        - fold (rres S t). rewrite Ep. apply not_arc_kind. exact Ea. }
+      rewrite Hr in Hv, Eun. unfold sresolve in Hv at 1. rewrite (sres_term _ _ _ Eun) in Hv.
+      rewrite (ident_item_scalar _ _ _ Ec ltac:(rewrite Hct; exact Eit) ltac:(rewrite Hct; exact Ea)), ty_eqb_refl in Hv.
+      cbn [andb] in Hv. rewrite Bool.orb_true_r in Hv.
+      rewrite (HC _ _ Hs Hv). eexists; reflexivity. }
+    cbn [orb] in Hok.
+    destruct (is_str_cty it && (is_faststr_cty (item_cty (rres S t)) || is_string_cty (item_cty (rres S t)))) eqn:E3.
+    { (* a string const at a FastStr / String field *)
+      destruct it; try discriminate. cbn [is_str_cty andb] in E3.
+      pose proof (ident_str _ _ _ _ Ec Eit) as Hct.
+      assert (Hs : const_simple S c = true).
+      { unfold const_simple. rewrite Ec, Eit, Hct. apply Bool.orb_true_r. }
+      assert (Hnt : not_nt S CStr) by (intros n a Hn; discriminate).
+      rewrite (in_chain_end S _ _ Hnt) by (rewrite Ep; destruct (rres S t); reflexivity).
+      assert (Hr : sresolve S (erase t) = TyString /\ (rres S t = RFastStr \/ rres S t = RString)).
+      { unfold sresolve. fold (pfuel S). rewrite sres_erase.
+        - fold (rres S t). destruct (rres S t); try discriminate; split; auto.
+        - fold (rres S t). rewrite Ep. destruct (rres S t); try discriminate; cbn; discriminate. }
+      destruct Hr as [Hr Hrt]. rewrite Hr in Hv.
+      assert (Hrc : sresolve S (erase ct) = TyString) by (destruct ct; try discriminate; reflexivity).
+      rewrite Hrc in Hv. cbn [scalar_head ty_eqb andb] in Hv. rewrite Bool.orb_true_r in Hv.
+      rewrite (HC _ _ Hs Hv).
+      destruct Hrt as [-> | ->]; cbn; eexists; reflexivity. }
+    cbn [orb] in Hok.
+    (* an enum-typed const at an integer field *)
+    destruct (ckind S it) as [ik|] eqn:Eik; [|discriminate]. destruct ik; try discriminate.
+    assert (Hct : exists n, ct = RPath n /\ it = CAdt n /\ unresolved S (TyRef n) = false).
+    { unfold ident_ty_of_const in Eit. rewrite Ec in Eit. injection Eit as Eit.
+      destruct ct; cbn in Eit; subst it; cbn in Eik; try discriminate.
+      exists n. split; [reflexivity|]. split; [reflexivity|]. cbn. unfold sitem. unfold item in Eik.
+      destruct (nth_error (ls_items S) n) as [[]|]; try discriminate; reflexivity. }
+    destruct Hct as (n & -> & -> & Hun).
+    assert (Hs : const_simple S c = true).
+    { unfold const_simple. rewrite Ec, Eit. cbn [item_cty]. rewrite cty_eqb_refl. reflexivity. }
+    assert (Hnt : not_nt S (CAdt n)).
+    { intros n' a Hn. injection Hn as <-. unfold item. cbn in Hun. unfold sitem in Hun. intros E. rewrite E in Hun. discriminate. }
+    assert (E4 : cty_eqb (CAdt n) (item_cty (rres S t)) = false) by (destruct (rres S t); try discriminate; reflexivity).
+    rewrite (in_chain_end S _ _ Hnt) by (rewrite Ep; exact E4).
+    assert (Hr : sresolve S (erase t) = erase (rres S t)).
+    { unfold sresolve. fold (pfuel S). apply sres_erase. fold (rres S t). rewrite Ep. destruct (rres S t); try discriminate; cbn; discriminate. }
+    rewrite Hr in Hv. cbn [erase] in Hv. unfold sresolve in Hv. rewrite !(sres_term _ _ _ Hun) in Hv.
+    assert (HA : ty_eqb (TyRef n) (erase t) = false).
+    { destruct (ty_eqb (TyRef n) (erase t)) eqn:EA; [|reflexivity]. apply ty_eqb_eq in EA.
+      rewrite <- EA in Hr. unfold sresolve in Hr. rewrite (sres_term _ _ _ Hun) in Hr.
+      destruct (rres S t); discriminate. }
+    assert (HB : ty_eqb (TyRef n) (erase (rres S t)) = false) by (destruct (rres S t); try discriminate; reflexivity).
+    rewrite HA, HB, Bool.andb_false_r in Hv. cbn [orb] in Hv.
+    destruct (cv c) as [[]|] eqn:Ecv; try discriminate.
+    destruct (sitem S n) as [[]|]; try discriminate.
+    rewrite (HC _ _ Hs Ecv).
+    destruct (rres S t); try discriminate; cbn [erase int_at] in Hv;
+      match type of Hv with (if ?b then _ else _) = _ => destruct b eqn:Eb; try discriminate end;
+      injection Hv as <-; cbn; rewrite wrap_id by (reflexivity || exact Eb); eexists; reflexivity.
   Qed.
 
   Lemma list_ok els : Forall good els -> forall a vs,
     spec_list val (erase a) els = Some vs ->
-    first_class (fun x => pclass_into S x (item_cty a)) els = None ->
-    exists xs, low_list into (item_cty a) els = LOk xs /\ map fst xs = vs.
+    first_class (fun x => pclass_into S true x (item_cty a)) els = None ->
+    exists xs, low_list (low true) (item_cty a) els = LOk xs /\ map fst xs = vs.
   Proof.
     induction 1 as [|x r Hx Hr IH]; intros a vs Hv Hp.
     - injection Hv as <-. exists []. split; reflexivity.
     - cbn [spec_list] in Hv. destruct (val x (erase a)) as [va|] eqn:Ea; [|discriminate].
       fold (spec_list val (erase a)) in Hv. destruct (spec_list val (erase a) r) as [vr|] eqn:Er; [|discriminate].
       injection Hv as <-. cbn [first_class] in Hp.
-      destruct (pclass_into S x (item_cty a)) eqn:Ex; [discriminate|].
-      fold (first_class (fun x => pclass_into S x (item_cty a))) in Hp.
-      destruct (Hx a (item_cty a) va (or_introl eq_refl) Ea Ex) as (c & Hc).
+      destruct (pclass_into S true x (item_cty a)) eqn:Ex; [discriminate|].
+      fold (first_class (fun x => pclass_into S true x (item_cty a))) in Hp.
+      destruct (Hx true a (item_cty a) va (or_introl eq_refl) Ea Ex) as (c & Hc).
       destruct (IH a vr Er Hp) as (xs & Hxs & Hm).
       exists ((va, c) :: xs). split; [|cbn; rewrite Hm; reflexivity].
-      cbn [low_list]. rewrite Hc. cbn [lbind]. fold (low_list into (item_cty a)). rewrite Hxs. reflexivity.
+      cbn [low_list]. rewrite Hc. cbn [lbind]. fold (low_list (low true) (item_cty a)). rewrite Hxs. reflexivity.
   Qed.
 
   Lemma good_list els : Forall good els -> good (LList els).
   Proof.
-    intros HF t ty v [->|[-> Hs]] Hv Hp.
-    - destruct (pre (LList els) t eq_refl Hp) as (Ep & Es).
-      cbn [lit_into_ty lit_value pclass_into] in *. rewrite Ep in *. rewrite Es in Hv. clear Ep Es.
-      destruct (rres S t) as [| | | | | | | | | | | | |a|a|a| | | |]; split_item; simp_item Hv Hp; try discriminate.
-      + change (match spec_list val (erase a) els with Some vs => Some (GList vs) | None => None end = Some v) in Hv.
-        change (first_class (fun x => pclass_into S x (item_cty a)) els = None) in Hp.
-        change (exists c, (let+ xs := low_list into (item_cty a) els in LOk (GList (map fst xs), false)) = LOk (v, c)).
-        destruct (spec_list val (erase a) els) as [vs|] eqn:Ev; [|discriminate]. injection Hv as <-.
-        destruct (list_ok els HF a vs Ev Hp) as (xs & -> & <-). eexists; reflexivity.
-      + change (match spec_list val (erase a) els with Some vs => Some (GSet vs) | None => None end = Some v) in Hv.
-        change (first_class (fun x => pclass_into S x (item_cty a)) els = None) in Hp.
-        change (exists c, (let+ xs := low_list into (item_cty a) els in LOk (GSet (map fst xs), false)) = LOk (v, c)).
-        destruct (spec_list val (erase a) els) as [vs|] eqn:Ev; [|discriminate]. injection Hv as <-.
-        destruct (list_ok els HF a vs Ev Hp) as (xs & -> & <-). eexists; reflexivity.
-      + change (match spec_list val (erase a) els with Some vs => Some (GSet vs) | None => None end = Some v) in Hv.
-        change (first_class (fun x => pclass_into S x (item_cty a)) els = None) in Hp.
-        change (exists c, (let+ xs := low_list into (item_cty a) els in LOk (GSet (map fst xs), false)) = LOk (v, c)).
-        destruct (spec_list val (erase a) els) as [vs|] eqn:Ev; [|discriminate]. injection Hv as <-.
-        destruct (list_ok els HF a vs Ev Hp) as (xs & -> & <-). eexists; reflexivity.
+    intros HF en t ty v [->|[-> Hs]] Hv Hp.
+    - destruct (pre en (LList els) t eq_refl Hp) as (Ep & Es).
+      cbn [lower lit_value pclass_into] in *. rewrite Ep in *. rewrite Es in Hv. clear Ep Es.
+      split_en en (item_cty t);
+      (destruct (rres S t) as [| | | | | | | | | | | | |a|a|a|a a'|a a'|a|n]; split_item; simp_item Hv Hp; try discriminate);
+      try (destruct els; [|discriminate]; injection Hv as <-; eexists; reflexivity);
+      try (change (match spec_list val (erase a) els with Some vs => Some (GList vs) | None => None end = Some v) in Hv;
+           change (first_class (fun x => pclass_into S true x (item_cty a)) els = None) in Hp;
+           change (exists c, (let+ xs := low_list (low true) (item_cty a) els in LOk (GList (map fst xs), false)) = LOk (v, c));
+           destruct (spec_list val (erase a) els) as [vs|] eqn:Ev; [|discriminate]; injection Hv as <-;
+           destruct (list_ok els HF a vs Ev Hp) as (xs & -> & <-); eexists; reflexivity);
+      try (change (match spec_list val (erase a) els with Some vs => Some (GSet vs) | None => None end = Some v) in Hv;
+           change (first_class (fun x => pclass_into S true x (item_cty a)) els = None) in Hp;
+           change (exists c, (let+ xs := low_list (low true) (item_cty a) els in LOk (GSet (map fst xs), false)) = LOk (v, c));
+           destruct (spec_list val (erase a) els) as [vs|] eqn:Ev; [|discriminate]; injection Hv as <-;
+           destruct (list_ok els HF a vs Ev Hp) as (xs & -> & <-); eexists; reflexivity).
     - destruct t; try discriminate; cbn in Hv; discriminate.
   Qed.
 
@@ -497,8 +610,8 @@ Section Main.
   Lemma look_ok m : Forall good2 m -> forall fs f, class_pairs S fs m = None -> In f fs -> forall res,
     spec_look val (lf_name f) (erase (lf_ty f)) m = Some res ->
     match res with
-    | Some x => exists c, low_look into (lf_name f) (item_cty (lf_ty f)) m = LOk (Some (x, c))
-    | None => low_look into (lf_name f) (item_cty (lf_ty f)) m = LOk None
+    | Some x => exists c, low_look (low true) (lf_name f) (item_cty (lf_ty f)) m = LOk (Some (x, c))
+    | None => low_look (low true) (lf_name f) (item_cty (lf_ty f)) m = LOk None
     end.
   Proof.
     induction 1 as [|[k w] r [Hk Hw] Hr IH]; intros fs f Hp Hin res Hv.
@@ -507,21 +620,21 @@ Section Main.
       destruct k; try discriminate.
       destruct (class_over S w s fs) eqn:Eo; [discriminate|].
       fold (class_pairs S fs) in Hp. fold (spec_look val (lf_name f) (erase (lf_ty f))) in Hv.
-      fold (low_look into (lf_name f) (item_cty (lf_ty f))).
+      fold (low_look (low true) (lf_name f) (item_cty (lf_ty f))).
       destruct (bytes_eqb s (lf_name f)) eqn:Eb.
       + destruct (val w (erase (lf_ty f))) as [x|] eqn:Ex; [|discriminate]. injection Hv as <-.
         cbn [snd] in Hw.
-        destruct (Hw (lf_ty f) (item_cty (lf_ty f)) x (or_introl eq_refl) Ex (class_over_in _ _ _ _ _ Eo Hin Eb)) as (c & Hc).
+        destruct (Hw true (lf_ty f) (item_cty (lf_ty f)) x (or_introl eq_refl) Ex (class_over_in _ _ _ _ _ Eo Hin Eb)) as (c & Hc).
         exists c. rewrite Hc. reflexivity.
       + exact (IH fs f Hp Hin res Hv).
   Qed.
 
   Lemma fields_ok m : Forall good2 m -> forall fs0, class_pairs S fs0 m = None -> forall fs out, incl fs fs0 ->
-    spec_fields val empty m fs = Some out -> exists c, low_fields into dflt m fs = LOk (out, c).
+    spec_fields val empty m fs = Some out -> exists c, low_fields (low true) dflt m fs = LOk (out, c).
   Proof.
     intros Hm fs0 Hp. induction fs as [|f r IH]; intros out Hin Hv.
     - injection Hv as <-. eexists; reflexivity.
-    - cbn [spec_fields] in Hv. fold (spec_fields val empty m) in Hv. cbn [low_fields]. fold (low_fields into dflt m).
+    - cbn [spec_fields] in Hv. fold (spec_fields val empty m) in Hv. cbn [low_fields]. fold (low_fields (low true) dflt m).
       destruct (spec_look val (lf_name f) (erase (lf_ty f)) m) as [res|] eqn:El; [|discriminate].
       pose proof (look_ok m Hm fs0 f Hp (Hin f (or_introl eq_refl)) res El) as Hl.
       assert (Hin' : incl r fs0) by (intros x Hx; apply Hin; right; exact Hx).
@@ -536,20 +649,60 @@ Section Main.
         * injection Hv as <-. cbn [lbind]. rewrite Hc'. eexists; reflexivity.
   Qed.
 
+  (* mk_map: keys through lit_into_ty, values through lit_as_rvalue *)
+  Definition class_kv (kt vt : cty) : list (lit * lit) -> option pclass :=
+    fix go (m : list (lit * lit)) : option pclass :=
+      match m with
+      | [] => None
+      | (k, v) :: r =>
+          match pclass_into S false k kt with
+          | Some c => Some c
+          | None => match pclass_into S true v vt with Some c => Some c | None => go r end
+          end
+      end.
+
+  Lemma pairs_ok m : Forall good2 m -> forall kt vt kvs,
+    spec_pairs val (erase kt) (erase vt) m = Some kvs ->
+    class_kv (item_cty kt) (item_cty vt) m = None ->
+    low_pairs (low true) (low false) (item_cty kt) (item_cty vt) m = LOk kvs.
+  Proof.
+    induction 1 as [|[k w] r [Hk Hw] Hr IH]; intros kt vt kvs Hv Hp.
+    - injection Hv as <-. reflexivity.
+    - cbn [spec_pairs] in Hv. fold (spec_pairs val (erase kt) (erase vt)) in Hv.
+      destruct (val k (erase kt)) as [a|] eqn:Ea; [|discriminate].
+      destruct (val w (erase vt)) as [b|] eqn:Eb; [|discriminate].
+      destruct (spec_pairs val (erase kt) (erase vt) r) as [c|] eqn:Er; [|discriminate]. injection Hv as <-.
+      cbn [class_kv] in Hp.
+      destruct (pclass_into S false k (item_cty kt)) eqn:Ek; [discriminate|].
+      destruct (pclass_into S true w (item_cty vt)) eqn:Ew; [discriminate|].
+      fold (class_kv (item_cty kt) (item_cty vt)) in Hp.
+      cbn [fst snd] in Hk, Hw.
+      destruct (Hk false kt _ a (or_introl eq_refl) Ea Ek) as (ca & Ha).
+      destruct (Hw true vt _ b (or_introl eq_refl) Eb Ew) as (cb & Hb).
+      cbn [low_pairs]. rewrite Ha, Hb. cbn [lbind fst]. fold (low_pairs (low true) (low false) (item_cty kt) (item_cty vt)).
+      rewrite (IH kt vt c Er Hp). reflexivity.
+  Qed.
+
   Lemma good_map m : Forall good2 m -> good (LMap m).
   Proof.
-    intros HF t ty v [->|[-> Hs]] Hv Hp.
-    - destruct (pre (LMap m) t eq_refl Hp) as (Ep & Es).
-      cbn [lit_into_ty lit_value pclass_into] in *. rewrite Ep in *. rewrite Es in Hv. clear Ep Es.
-      destruct (rres S t); split_item; simp_item Hv Hp; try discriminate.
-      repeat match type of Hv with (if ?b then None else _) = _ => destruct b; [discriminate|] end.
-      match goal with E : nth_error (ls_items S) _ = Some (IStruct ?fs _ _) |- _ =>
-        change (match spec_fields val empty m fs with Some out => Some (GStruct out []) | None => None end = Some v) in Hv;
-        change (class_pairs S fs m = None) in Hp;
-        change (exists c, (let+ out := low_fields into dflt m fs in LOk (GStruct (fst out) [], snd out)) = LOk (v, c));
-        destruct (spec_fields val empty m fs) as [out|] eqn:Ef; [|discriminate]; injection Hv as <-;
-        destruct (fields_ok m HF fs Hp fs out (incl_refl _) Ef) as (c & ->); eexists; reflexivity
-      end.
+    intros HF en t ty v [->|[-> Hs]] Hv Hp.
+    - destruct (pre en (LMap m) t eq_refl Hp) as (Ep & Es).
+      cbn [lower lit_value pclass_into] in *. rewrite Ep in *. rewrite Es in Hv. clear Ep Es.
+      split_en en (item_cty t);
+      (destruct (rres S t) as [| | | | | | | | | | | | |a|a|a|a a'|a a'|a|n]; split_item; simp_item Hv Hp; try discriminate);
+      try (change (match spec_pairs val (erase a) (erase a') m with Some kvs => Some (GMap kvs) | None => None end = Some v) in Hv;
+           change (class_kv (item_cty a) (item_cty a') m = None) in Hp;
+           change (exists c, (let+ kvs := low_pairs (low true) (low false) (item_cty a) (item_cty a') m in LOk (GMap kvs, false)) = LOk (v, c));
+           destruct (spec_pairs val (erase a) (erase a') m) as [kvs|] eqn:Es; [|discriminate]; injection Hv as <-;
+           rewrite (pairs_ok m HF a a' kvs Es Hp); eexists; reflexivity);
+      try (repeat match type of Hv with (if ?b then None else _) = _ => destruct b; [discriminate|] end;
+           match goal with E : nth_error (ls_items S) _ = Some (IStruct ?fs _ _) |- _ =>
+             change (match spec_fields val empty m fs with Some out => Some (GStruct out []) | None => None end = Some v) in Hv;
+             change (class_pairs S fs m = None) in Hp;
+             change (exists c, (let+ out := low_fields (low true) dflt m fs in LOk (GStruct (fst out) [], snd out)) = LOk (v, c));
+             destruct (spec_fields val empty m fs) as [out|] eqn:Ef; [|discriminate]; injection Hv as <-;
+             destruct (fields_ok m HF fs Hp fs out (incl_refl _) Ef) as (c & ->); eexists; reflexivity
+           end).
     - destruct t; try discriminate; cbn in Hv; discriminate.
   Qed.
 
@@ -561,62 +714,10 @@ Section Main.
     - apply good_map; assumption.
   Qed.
 
-  (* ---------- the top of a default: lit_as_rvalue ---------- *)
-  Notation top := (lit_as_rvalue parse_f64 S cval dflt).
-
-  Lemma pairs_ok m : forall kt vt kvs,
-    spec_pairs val (erase kt) (erase vt) m = Some kvs ->
-    first_class (fun kv => match pclass_into S (fst kv) (item_cty kt) with
-                           | Some c => Some c
-                           | None => pclass_into S (snd kv) (item_cty vt)
-                           end) m = None ->
-    low_pairs into (item_cty kt) (item_cty vt) m = LOk kvs.
-  Proof.
-    induction m as [|[k w] r IH]; intros kt vt kvs Hv Hp.
-    - injection Hv as <-. reflexivity.
-    - cbn [spec_pairs] in Hv. fold (spec_pairs val (erase kt) (erase vt)) in Hv.
-      destruct (val k (erase kt)) as [a|] eqn:Ea; [|discriminate].
-      destruct (val w (erase vt)) as [b|] eqn:Eb; [|discriminate].
-      destruct (spec_pairs val (erase kt) (erase vt) r) as [c|] eqn:Er; [|discriminate]. injection Hv as <-.
-      cbn [first_class fst snd] in Hp.
-      destruct (pclass_into S k (item_cty kt)) eqn:Ek; [discriminate|].
-      destruct (pclass_into S w (item_cty vt)) eqn:Ew; [discriminate|].
-      match type of Hp with ?f r = None => change (first_class (fun kv => match pclass_into S (fst kv) (item_cty kt) with
-                           | Some c => Some c
-                           | None => pclass_into S (snd kv) (item_cty vt)
-                           end) r = None) in Hp end.
-      destruct (lit_good k kt _ a (or_introl eq_refl) Ea Ek) as (ca & Ha).
-      destruct (lit_good w vt _ b (or_introl eq_refl) Eb Ew) as (cb & Hb).
-      cbn [low_pairs]. rewrite Ha, Hb. cbn [lbind fst]. fold (low_pairs into (item_cty kt) (item_cty vt)).
-      rewrite (IH kt vt c Er Hp). reflexivity.
-  Qed.
-
+  (* the top of a default: lit_as_rvalue *)
   Lemma top_good l t v : val l (erase t) = Some v -> pclass_top S l (item_cty t) = None ->
-    exists c, top l (item_cty t) = LOk (v, c).
-  Proof.
-    intros Hv Hp.
-    assert (Hinto : pclass_into S l (item_cty t) = None -> exists c, into l (item_cty t) = LOk (v, c)).
-    { intros H. exact (lit_good l t _ v (or_introl eq_refl) Hv H). }
-    destruct t; try (unfold lit_as_rvalue; destruct l; cbn; apply Hinto; exact Hp).
-    - (* RMap *)
-      destruct l; try (unfold lit_as_rvalue; cbn; apply Hinto; exact Hp); try (cbn in Hv; discriminate).
-      + cbn in Hv. destruct l; [|discriminate]. injection Hv as <-. eexists; reflexivity.
-      + cbn [lit_value erase] in Hv. unfold sresolve in Hv. cbn [sresolve_n] in Hv.
-        change (match spec_pairs val (erase t1) (erase t2) l with Some kvs => Some (GMap kvs) | None => None end = Some v) in Hv.
-        destruct (spec_pairs val (erase t1) (erase t2) l) as [kvs|] eqn:Es; [|discriminate]. injection Hv as <-.
-        cbn [pclass_top item_cty] in Hp.
-        unfold lit_as_rvalue. cbn. unfold mk_map. rewrite (pairs_ok l t1 t2 kvs Es Hp). eexists; reflexivity.
-    - (* RBTreeMap *)
-      destruct l; try (unfold lit_as_rvalue; cbn; apply Hinto; exact Hp); try (cbn in Hv; discriminate).
-      + cbn in Hv. destruct l; [|discriminate]. injection Hv as <-. eexists; reflexivity.
-      + cbn [lit_value erase] in Hv. unfold sresolve in Hv. cbn [sresolve_n] in Hv.
-        change (match spec_pairs val (erase t1) (erase t2) l with Some kvs => Some (GMap kvs) | None => None end = Some v) in Hv.
-        destruct (spec_pairs val (erase t1) (erase t2) l) as [kvs|] eqn:Es; [|discriminate]. injection Hv as <-.
-        cbn [pclass_top item_cty] in Hp.
-        unfold lit_as_rvalue. cbn. unfold mk_map. rewrite (pairs_ok l t1 t2 kvs Es Hp). eexists; reflexivity.
-    - (* RPath *)
-      unfold lit_as_rvalue. cbn [item_cty ckind]. destruct (item S n) as [[]|]; destruct l; cbn; apply Hinto; exact Hp.
-  Qed.
+    exists c, lit_as_rvalue parse_f64 S cval dflt l (item_cty t) = LOk (v, c).
+  Proof. intros Hv Hp. exact (lit_good l true t _ v (or_introl eq_refl) Hv Hp). Qed.
 End Main.
 
 (* ---------- typedef / Arc chains for Default::default() ---------- *)
@@ -637,24 +738,6 @@ Proof.
   rewrite <- (erase_unarc t). destruct (unarc t) eqn:E; try reflexivity.
   - exfalso. exact (unarc_not_arc _ _ E).
   - cbn [erase]. unfold sitem, item. destruct (nth_error (ls_items S) n) as [[]|]; auto.
-Qed.
-
-Lemma rvalue_eq_into pf S cval dflt l ty :
-  (forall k, ckind S ty = Some k -> k <> CPLazyStaticRef /\ k <> CPMap /\ k <> CPBTreeMap) ->
-  lit_as_rvalue pf S cval dflt l ty = lit_into_ty pf S cval dflt l ty.
-Proof.
-  intros H. unfold lit_as_rvalue. destruct (ckind S ty) as [k|]; [|reflexivity].
-  specialize (H k eq_refl). destruct H as (H1 & H2 & H3).
-  destruct k; try congruence; destruct l; reflexivity.
-Qed.
-
-Lemma ident_item_kind S c ct lc : nth_error (ls_consts S) c = Some (ct, lc) ->
-  ident_ty_of_const S c = Some (item_cty ct) ->
-  forall k, ckind S (item_cty ct) = Some k -> k <> CPLazyStaticRef /\ k <> CPMap /\ k <> CPBTreeMap.
-Proof.
-  unfold ident_ty_of_const. intros -> H k Hk. injection H as H.
-  destruct ct; cbn in H, Hk; try discriminate; try (injection Hk as <-; repeat split; discriminate).
-  destruct (item S n) as [[]|]; try discriminate; injection Hk as <-; repeat split; discriminate.
 Qed.
 
 (* the struct clause of ev's QDefault, named *)
@@ -691,13 +774,13 @@ Section Fuel.
   Qed.
 
   Lemma const_class_free_at c ct lc it : nth_error (ls_consts S) c = Some (ct, lc) -> ident_ty_of_const S c = Some it ->
-    const_simple S c = true -> pclass_into S lc it = None.
+    const_simple S c = true -> pclass_into S (should_lazy_static S it) lc it = None.
   Proof.
     intros Hc Hi Hs. unfold class_free_schema in Hcf. apply Bool.andb_true_iff in Hcf. destruct Hcf as [_ H2].
     rewrite forallb_forall in H2.
     assert (Hlt : (c < length (ls_consts S))%nat) by (apply nth_error_Some; congruence).
     specialize (H2 c ltac:(apply in_seq; lia)). unfold const_class_free in H2. rewrite Hs, Hc, Hi in H2.
-    destruct (pclass_into S lc it); [discriminate|reflexivity].
+    destruct (pclass_into S (should_lazy_static S it) lc it); [discriminate|reflexivity].
   Qed.
 
   Definition PC (f : nat) : Prop := forall c v, const_simple S c = true ->
@@ -741,19 +824,14 @@ Section Fuel.
       destruct (nth_error (ls_consts S) c) as [[ct lc]|] eqn:Ec; [|discriminate].
       destruct (ident_ty_of_const S c) as [it|] eqn:Ei; [|unfold const_simple in Hs; rewrite Ec, Ei in Hs; discriminate].
       pose proof (const_class_free_at _ _ _ _ Ec Ei Hs) as Hp.
-      unfold const_simple in Hs. rewrite Ec, Ei in Hs. unfold def_lit.
-      destruct (cty_eqb it (item_cty ct)) eqn:Eq.
-      + apply cty_eqb_eq in Eq. subst it.
-        rewrite (rvalue_eq_into _ _ _ _ lc _ (ident_item_kind _ _ _ _ Ec Ei)).
-        destruct (lit_good parse_f64 S _ _ _ _ HC HD lc ct _ v (or_introl eq_refl) Hv Hp) as (cc & ->).
-        destruct (should_lazy_static S (item_cty ct)); reflexivity.
-      + cbn [orb] in Hs.
-        assert (it = CStr).
-        { unfold ident_ty_of_const in Ei. rewrite Ec in Ei. injection Ei as <-. destruct ct; try discriminate; reflexivity. }
-        subst it.
-        rewrite (rvalue_eq_into _ _ _ _ lc CStr) by (intros k Hk; injection Hk as <-; repeat split; discriminate).
-        destruct (lit_good parse_f64 S _ _ _ _ HC HD lc ct CStr v (or_intror (conj eq_refl Hs)) Hv Hp) as (cc & ->).
-        destruct (should_lazy_static S CStr); reflexivity.
+      unfold const_simple in Hs. rewrite Ec, Ei in Hs. unfold def_lit, lit_as_rvalue, lit_into_ty.
+      assert (Hrel : crel ct it).
+      { destruct (cty_eqb it (item_cty ct)) eqn:Eq.
+        - left. apply cty_eqb_eq. exact Eq.
+        - right. cbn [orb] in Hs. split; [|exact Hs].
+          unfold ident_ty_of_const in Ei. rewrite Ec in Ei. injection Ei as <-. destruct ct; try discriminate; reflexivity. }
+      destruct (lit_good parse_f64 S _ _ _ _ HC HD lc (should_lazy_static S it) ct it v Hrel Hv Hp) as (cc & Hl).
+      destruct (should_lazy_static S it); rewrite Hl; reflexivity.
     - intros t d Hv. cbn [sv] in Hv. cbn [ev]. unfold sempty_step in Hv.
       unfold sresolve in Hv. rewrite sres_rstrip in Hv. fold (pfuel S) in Hv. fold (rstrip S t) in Hv.
       pose proof (rstrip_not_arc S (pfuel S) t) as Hna. fold (rstrip S t) in Hna.
